@@ -28,13 +28,39 @@ func uvarintFromBytes(p []byte) (uint64, int) {
 }
 
 func uvarintFromBuf(r *bufio.Reader) (uint64, error) {
-	p, err := r.Peek(9)
-	if err != nil && err != io.EOF {
-		return 0, err
+	p, err := r.Peek(1)
+	if err != nil {
+		return 0, noEOF(err)
 	}
-	x, n := uvarintFromBytes(p)
+	n := uvarintLen(p[0])
+	p, err = r.Peek(n)
+	if err != nil {
+		return 0, noEOF(err)
+	}
+	x, _ := uvarintFromBytes(p)
 	_, err = r.Discard(n)
 	return x, err
+}
+
+// uvarintLen gives the length of an encoded uvarint, as told by its first byte.
+func uvarintLen(b0 byte) int {
+	switch {
+	case b0 <= 240:
+		return 1
+	case b0 <= 248:
+		return 2
+	default:
+		return int(b0) - 246
+	}
+}
+
+// noEOF turns the end of input in the middle of the data into an error
+// that can't be taken for a regular end.
+func noEOF(err error) error {
+	if err == io.EOF {
+		return io.ErrUnexpectedEOF
+	}
+	return err
 }
 
 func varintToBytes(p []byte, x int64) int {
@@ -127,41 +153,51 @@ func valueFromBytes(p []byte) (value, int) {
 }
 
 func valueFromBuf(r *bufio.Reader) (value, error) {
-	var b [1]byte
+	var b [8]byte
 	_, err := io.ReadFull(r, b[:1])
 	if err != nil {
-		return nil, err
+		return nil, noEOF(err)
 	}
 
 	switch c := typecode(b[0]); c {
 	case typeINT:
-		p, _ := r.Peek(9)
-		x, i := varintFromBytes(p)
-		_, err = r.Discard(i)
-		return int(x), err
+		x, err := uvarintFromBuf(r)
+		if err != nil {
+			return nil, err
+		}
+		return int(u64ToI64(x)), nil
 
 	case typeFLOAT:
-		p, _ := r.Peek(8)
-		_, err = r.Discard(len(p))
-		return math.Float64frombits(stdbinary.BigEndian.Uint64(p)), err
+		_, err = io.ReadFull(r, b[:8])
+		if err != nil {
+			return nil, noEOF(err)
+		}
+		return math.Float64frombits(stdbinary.BigEndian.Uint64(b[:8])), nil
 
 	case typeSTR:
-		p, _ := r.Peek(9)
-		k, i := uvarintFromBytes(p)
-		r.Discard(i)
-		p, _ = r.Peek(int(k))
-		_, err = r.Discard(len(p))
-		return string(p), err
+		k, err := uvarintFromBuf(r)
+		if err != nil {
+			return nil, err
+		}
+		p := make([]byte, k)
+		_, err = io.ReadFull(r, p)
+		if err != nil {
+			return nil, noEOF(err)
+		}
+		return string(p), nil
 
 	case typeBOOL:
 		_, err = io.ReadFull(r, b[:1])
-		return b[0] != 0, err
+		if err != nil {
+			return nil, noEOF(err)
+		}
+		return b[0] != 0, nil
 
 	case typeNIL:
 		return nil, nil
 
 	default:
-		panic(errInvalidType{b[0]})
+		return nil, errInvalidType{b[0]}
 	}
 }
 
